@@ -127,6 +127,9 @@ def run_case(case):
         nt = bool(D >= 0.05 and wrong >= 5 * tol)
         nontriv = nontriv or nt
         met["residual_over_tol"] = max(met.get("residual_over_tol", 0), res / tol)
+        kcls = "residual_over_tol[%s,it%d,d%d%s%s%s]" % (fam, case["it"], case["deriv"], ",fine" if steps >= 1000 else "",
+                                                         ",limit" if "near_stability_limit" in cls else "", ",short" if case["zoom"] < 0.5 else "")
+        met[kcls] = max(met.get(kcls, 0), res / tol)
         met["D"] = max(met.get("D", 0), D)
         if res > tol:
             return Outcome(False, nt, cls, "stationary bunch %d of %d does not satisfy ln rho + q^2/2 - (1/dtheta) int W dq = const with its own recorded wake: std over the core %.4f > %.4f (with the opposite sign of the wake term: %.4f); %s, D=%.3f, n=%d, steps=%d, currents %s A" %
